@@ -11,7 +11,9 @@
 (*                        `assert top is self`, pop)                       *)
 (*   Call(t, k)           a call expression in a function body whose       *)
 (*                        callee is wrapped in kind k:                     *)
-(*        cvt(rec, ur)    api.convert(recursive, user_requested)(f)        *)
+(*        cvt(rec, ur)    api.convert(recursive, user_requested)(f); with   *)
+(*                        lam the converted entity is a lambda that calls  *)
+(*                        f (with_function_scope instead of `with`)        *)
 (*        dnc             api.do_not_convert(f)                            *)
 (*        uns             api.call_with_unspecified_conversion_status(f)   *)
 (*        blk             a plain `with ControlStatusCtx(ENABLED):` block  *)
@@ -70,29 +72,34 @@ NoCtx == [id |-> 0, st |-> "-"]
 DefaultCtx(t) == [id |-> 1000 * t, st |-> "U"]     \* _default_control_status_ctx(), created per thread
 NewCtx(t, s)  == [id |-> 1000 * t + ctr[t] + 1, st |-> s]
 
-KCvt(rec, ur)      == [w |-> "cvt",   rec |-> rec,   ur |-> ur,    src |-> "none", cbd |-> FALSE]
-KDnc               == [w |-> "dnc",   rec |-> FALSE, ur |-> FALSE, src |-> "none", cbd |-> FALSE]
-KUns               == [w |-> "uns",   rec |-> FALSE, ur |-> FALSE, src |-> "none", cbd |-> FALSE]
-KBlk               == [w |-> "blk",   rec |-> FALSE, ur |-> FALSE, src |-> "none", cbd |-> FALSE]
-KPlain             == [w |-> "plain", rec |-> FALSE, ur |-> FALSE, src |-> "none", cbd |-> FALSE]
-KIc(src, cbd, ur)  == [w |-> "ic",    rec |-> TRUE,  ur |-> ur,    src |-> src,    cbd |-> cbd]
+KCvt(rec, ur)      == [w |-> "cvt",   rec |-> rec,   ur |-> ur,    src |-> "none", cbd |-> FALSE, lam |-> FALSE]
+KCvtL(rec, ur)     == [w |-> "cvt",   rec |-> rec,   ur |-> ur,    src |-> "none", cbd |-> FALSE, lam |-> TRUE]
+KDnc               == [w |-> "dnc",   rec |-> FALSE, ur |-> FALSE, src |-> "none", cbd |-> FALSE, lam |-> FALSE]
+KUns               == [w |-> "uns",   rec |-> FALSE, ur |-> FALSE, src |-> "none", cbd |-> FALSE, lam |-> FALSE]
+KBlk               == [w |-> "blk",   rec |-> FALSE, ur |-> FALSE, src |-> "none", cbd |-> FALSE, lam |-> FALSE]
+KPlain             == [w |-> "plain", rec |-> FALSE, ur |-> FALSE, src |-> "none", cbd |-> FALSE, lam |-> FALSE]
+KIc(src, cbd, ur)  == [w |-> "ic",    rec |-> TRUE,  ur |-> ur,    src |-> src,    cbd |-> cbd,   lam |-> FALSE]
 
-KindsAll   == {KCvt(r, u) : r \in BOOLEAN, u \in BOOLEAN} \cup {KDnc, KUns, KBlk, KPlain}
+KindsAll   == {KCvt(r, u) : r \in BOOLEAN, u \in BOOLEAN} \cup {KCvtL(r, u) : r \in BOOLEAN, u \in BOOLEAN}
+              \cup {KDnc, KUns, KBlk, KPlain}
               \cup {KIc(s, c, u) : s \in {"cur", "E", "D", "U"}, c \in BOOLEAN, u \in BOOLEAN}
 \* internal_convert ignores cbd unless the status is UNSPECIFIED and ur when it does not convert:
 \* one representative per distinguishable dispatch for the exhaustive runs
-KindsCore  == {KCvt(r, u) : r \in BOOLEAN, u \in BOOLEAN} \cup {KDnc, KUns, KBlk, KPlain}
+KindsCore  == {KCvt(r, u) : r \in BOOLEAN, u \in BOOLEAN} \cup {KCvtL(TRUE, TRUE), KCvtL(FALSE, TRUE)}
+              \cup {KDnc, KUns, KBlk, KPlain}
               \cup {KIc("cur", TRUE, TRUE), KIc("cur", FALSE, FALSE), KIc("E", FALSE, TRUE), KIc("E", FALSE, FALSE),
                     KIc("D", TRUE, TRUE), KIc("U", TRUE, TRUE), KIc("U", FALSE, TRUE)}
-KindsSmall == {KCvt(TRUE, TRUE), KCvt(FALSE, FALSE), KDnc, KUns, KPlain, KIc("cur", TRUE, TRUE), KIc("E", FALSE, FALSE)}
+KindsSmall == {KCvt(TRUE, TRUE), KCvt(FALSE, FALSE), KCvtL(TRUE, TRUE), KDnc, KUns, KPlain, KIc("cur", TRUE, TRUE), KIc("E", FALSE, FALSE)}
 KindsTiny  == {KCvt(TRUE, TRUE), KDnc, KPlain, KIc("cur", TRUE, FALSE)}
+KindsTinyL == {KCvtL(TRUE, TRUE), KCvt(FALSE, TRUE), KDnc, KPlain, KIc("E", FALSE, FALSE)}
 
 (* a number for every kind, used only to split enumerations *)
 KindNo(k) == (CASE k.w = "cvt" -> 0 [] k.w = "dnc" -> 1 [] k.w = "uns" -> 2 [] k.w = "blk" -> 3 [] k.w = "plain" -> 4 [] OTHER -> 5)
              + 6 * ((IF k.rec THEN 1 ELSE 0) + 2 * (IF k.ur THEN 1 ELSE 0) + 4 * (IF k.cbd THEN 1 ELSE 0)
+                    + 40 * (IF k.lam THEN 1 ELSE 0)
                     + 8 * (CASE k.src = "cur" -> 1 [] k.src = "E" -> 2 [] k.src = "D" -> 3 [] k.src = "U" -> 4 [] OTHER -> 0))
 
-NoKind == [w |-> "-", rec |-> FALSE, ur |-> FALSE, src |-> "none", cbd |-> FALSE]
+NoKind == [w |-> "-", rec |-> FALSE, ur |-> FALSE, src |-> "none", cbd |-> FALSE, lam |-> FALSE]
 
 Top(t) == stack[t][Len(stack[t])]
 
@@ -100,7 +107,7 @@ Top(t) == stack[t][Len(stack[t])]
    "wrap" (one of malt's wrapper functions).  All frames carry the same fields. *)
 Frame(f, n, w, rec, ur, conv, cctx, ph) ==
   [f |-> f, n |-> n, w |-> w, rec |-> rec, ur |-> ur, conv |-> conv, cctx |-> cctx, own |-> NoCtx,
-   ph |-> ph, cur |-> NoCtx, nch |-> 0, cn |-> 0]
+   ph |-> ph, cur |-> NoCtx, nch |-> 0, cn |-> 0, lam |-> FALSE]
 
 TopFrame(t) == cs[t][Len(cs[t])]
 Depth(t)    == Cardinality({i \in 1..Len(cs[t]) : cs[t][i].f = "body"}) - 1
@@ -123,10 +130,10 @@ Quiet == UNCHANGED <<ev, log>>
    convert(conversion_ctx=...) *)
 IcResolve(k, c) ==
   IF c.st = "E" \/ (c.st = "U" /\ k.cbd)
-    THEN [w |-> "cvt", rec |-> TRUE, ur |-> k.ur, cctx |-> c]
+    THEN [w |-> "cvt", rec |-> TRUE, ur |-> k.ur, cctx |-> c, lam |-> FALSE]
   ELSE IF c.st = "D"
-    THEN [w |-> "dnc", rec |-> FALSE, ur |-> FALSE, cctx |-> NoCtx]
-    ELSE [w |-> "uns", rec |-> FALSE, ur |-> FALSE, cctx |-> NoCtx]
+    THEN [w |-> "dnc", rec |-> FALSE, ur |-> FALSE, cctx |-> NoCtx, lam |-> FALSE]
+    ELSE [w |-> "uns", rec |-> FALSE, ur |-> FALSE, cctx |-> NoCtx, lam |-> FALSE]
 
 (* ---- Init ------------------------------------------------------------------ *)
 Init == /\ stack = [t \in Threads |-> <<DefaultCtx(t)>>]
@@ -162,13 +169,13 @@ Call(t, k) ==
          n == nn[t] + 1
          fresh == k.w = "ic" /\ k.src # "cur"                \* the harness creates ControlStatusCtx(status)
          ictx == IF k.w # "ic" THEN NoCtx ELSE IF k.src = "cur" THEN Top(t) ELSE NewCtx(t, k.src)
-         r == IF k.w = "ic" THEN IcResolve(k, ictx) ELSE [w |-> k.w, rec |-> k.rec, ur |-> k.ur, cctx |-> NoCtx]
+         r == IF k.w = "ic" THEN IcResolve(k, ictx) ELSE [w |-> k.w, rec |-> k.rec, ur |-> k.ur, cctx |-> NoCtx, lam |-> k.lam]
          \* plain call: from a converted body converted_call(f, callopts) converts iff callopts allow
          \* (internal_convert_user_code = recursive) and the status is not DISABLED; never user requested
          pconv == fr.conv /\ fr.rec /\ Top(t).st # "D"
          callee == IF k.w = "plain"
                      THEN Frame("body", n, "plain", IF pconv THEN fr.rec ELSE FALSE, FALSE, pconv, NoCtx, "entry")
-                     ELSE Frame("wrap", n, r.w, r.rec, r.ur, FALSE, r.cctx, "enter")
+                     ELSE [Frame("wrap", n, r.w, r.rec, r.ur, FALSE, r.cctx, "enter") EXCEPT !.lam = r.lam]
      IN /\ Depth(t) < MaxDepth /\ fr.nch < MaxWidth /\ nn[t] < MaxNodes
         /\ (nn[t] = 0 => KindNo(k) % NParts = Part)
         /\ nn' = [nn EXCEPT ![t] = n]
@@ -186,8 +193,10 @@ WEnter(t) ==
          c == CASE fr.w = "dnc" -> NewCtx(t, "D")            \* with ControlStatusCtx(status=DISABLED)
                 [] fr.w = "uns" -> NewCtx(t, "U")            \* with ControlStatusCtx(status=UNSPECIFIED)
                 [] fr.w = "blk" -> NewCtx(t, "E")
+                \* a converted lambda: with_function_scope -> `with FunctionScope(...)`, as BodyStart
+                [] fr.w = "lam" -> IF fr.conv /\ fr.ur THEN NewCtx(t, "E") ELSE NoCtx
                 [] OTHER        -> fr.cctx                   \* convert(): with conversion_ctx (NullCtx or the given object)
-         new == fr.w \in {"dnc", "uns", "blk"}
+         new == fr.w \in {"dnc", "uns", "blk"} \/ (fr.w = "lam" /\ fr.conv /\ fr.ur)
      IN /\ stack' = [stack EXCEPT ![t] = IF c # NoCtx THEN Entered(t, c) ELSE @]
         /\ ctr' = [ctr EXCEPT ![t] = IF new THEN @ + 1 ELSE @]
         /\ cs' = SetTop(t, [fr EXCEPT !.ph = "invoke", !.own = c])
@@ -199,8 +208,14 @@ WInvoke(t) ==
   /\ LET fr == TopFrame(t)
          \* convert(): converted_call(f, args, kwargs, options=ConversionOptions(recursive, user_requested)):
          \* `if control_status_ctx().status == DISABLED: return _call_unconverted(f, ...)`, else convert
-         conv == fr.w = "cvt" /\ Top(t).st # "D"
-         callee == Frame("body", fr.n, fr.w, IF conv THEN fr.rec ELSE FALSE, IF conv THEN fr.ur ELSE FALSE, conv, NoCtx, "entry")
+         \* the lambda `lambda n: body(n)` calls the body like any converted function calls a plain callee
+         conv == CASE fr.w = "cvt" -> Top(t).st # "D"
+                   [] fr.w = "lam" -> fr.conv /\ fr.rec /\ Top(t).st # "D"
+                   [] OTHER        -> FALSE
+         callee == IF fr.w = "cvt" /\ fr.lam
+                     THEN Frame("wrap", fr.n, "lam", IF conv THEN fr.rec ELSE FALSE, IF conv THEN fr.ur ELSE FALSE, conv, NoCtx, "enter")
+                     ELSE Frame("body", fr.n, fr.w, IF conv THEN fr.rec ELSE FALSE,
+                                IF conv /\ fr.w = "cvt" THEN fr.ur ELSE FALSE, conv, NoCtx, "entry")
      IN cs' = [cs EXCEPT ![t] = Append([@ EXCEPT ![Len(@)] = [fr EXCEPT !.ph = "wait"]], callee)]
   /\ Quiet /\ UNCHANGED <<stack, exc, ctr, nn, tree, assertFailed>>
 
@@ -294,6 +309,8 @@ RegionStatus == \A t \in Threads : AtOwnLevel(t) =>
     /\ (fr.conv /\ fr.ur => Top(t).st = "E" /\ Top(t) = fr.own)    \* user-requested converted function: enabled
     /\ (fr.w = "cvt" /\ ~fr.conv => Top(t).st = "D")               \* convert() only declines in a disabled context
     /\ (fr.conv => Top(t).st # "D")
+    /\ (fr.w = "lam" => LET lf == cs[t][Len(cs[t]) - 1] IN           \* inside a user-requested converted lambda
+                          (lf.conv /\ lf.ur) => (Top(t).st = "E" /\ Top(t) = lf.own))
     /\ (Len(cs[t]) = 1 => Top(t) = DefaultCtx(t))                  \* outside every region: the default, UNSPECIFIED
 
 Quiescent == \A t \in Threads : cs[t] = <<>> => stack[t] = <<DefaultCtx(t)>>
